@@ -25,6 +25,10 @@ pub fn cases(rng: &mut Rng, tier: &str) -> (Vec<Case>, bool) {
             // indentation, CRLF-less tabs
             text.push_str("\n9992 REM trailing blanks   \n9993 DATA \"NAME   \n9994 READ N$ : PRINT N$; \"|\"\n  9996 PRINT 1\t\n9997 DATA unquoted  ,  x  ");
         }
+        if i % 4 == 2 {
+            // line numbers beyond what any classic BASIC allowed, up to the largest the store takes
+            text.push_str("\n63999 X9 = 1\n64000 PRINT \"BIG\"; X9\n100000 Y9 = 2\n4294967296 PRINT Y9\n18446744073709551615 END");
+        }
         // A: load the file vs type its lines, in-process (implementation vs model, and against each other)
         let mut w = Walk::new(false, false);
         w.op(&format!("load {}", hexs(&text)));
